@@ -176,7 +176,7 @@ func lineModel(e *Env, r *Report, prop string) {
 	}
 	recs := []any{}
 	routes := map[string]int{}
-	for i, b := range behs {
+	one := func(i int, b lineBeh) map[string]any {
 		text := fmt.Sprintf("type=AVC msg=audit(17000%05d.%03d:%d): apparmor=\"DENIED\" ", i%100000, i%1000, i) + concLine(b.Line, i) + "\n"
 		var got logs.AppArmorLogs
 		crashed := false
@@ -230,9 +230,29 @@ func lineModel(e *Env, r *Report, prop string) {
 				pairs = append(pairs, [2][]string{absText(k), v})
 			}
 		}
-		recs = append(recs, map[string]any{"ev": "line", "p": prop, "id": b.Mode + "|" + strings.Join(b.Line, ""), "mode": b.Mode, "rec": b.Rec, "line": b.Line,
-			"n": len(got), "crashed": crashed, "got": pairs, "log": text})
+		return map[string]any{"ev": "line", "p": prop, "id": b.Mode + "|" + strings.Join(b.Line, ""), "mode": b.Mode, "rec": b.Rec, "line": b.Line,
+			"n": len(got), "crashed": crashed, "got": pairs, "log": text}
 	}
+	firstJSON := make([]string, len(behs))
+	for i, b := range behs {
+		rec := one(i, b)
+		jb, _ := json.Marshal(rec)
+		firstJSON[i] = string(jb)
+		recs = append(recs, rec)
+	}
+	// second pass in the opposite order: the scanners keep package-level state (the quoted toggle), a
+	// line must decode the same whatever came before it; only results that differ are added
+	nHist := 0
+	for i := len(behs) - 1; i >= 0; i-- {
+		rec := one(i, behs[i])
+		jb, _ := json.Marshal(rec)
+		if string(jb) != firstJSON[i] {
+			rec["id"] = fmt.Sprint(rec["id"]) + "|second pass, reverse order"
+			recs = append(recs, rec)
+			nHist++
+		}
+	}
+	r.Coverage["line_results_depending_on_history"] = nHist
 	r.Coverage["line_runs"] = len(recs)
 	for k, v := range routes {
 		r.Coverage["line_route_"+k] = v
